@@ -10,6 +10,8 @@ CONSTANTS
   ReverseViewCached = TRUE
   AliasBoundToFirstObject = FALSE
   ShallowCopy = FALSE
+  ViewReplacesEmptyIndex = FALSE
+  WatchParts = FALSE
   SrcSteps = 0
   Emit = FALSE
 SPECIFICATION Spec
